@@ -14,6 +14,17 @@ BASELINE_OFF = (
 
 # id -> (level, technique, level text, level note, design ref)
 T = {
+    "C18": (
+        "exploration",
+        "exhaustive enumeration of the metadata lattice / byte-string formats / correction configurations through real save-load cycles, bitwise comparison",
+        "Every point of the image metadata lattice (space_dim x series x scalar x dtype x 5 time-info variants x name x origin; provenance-coded data "
+        "with float edge values) is saved with Image.save and re-read with imread (Path and str, two generations) and compared bitwise with the saved "
+        "object and with a reference built from the case descriptor; PNG/TIFF byte strings from cv2 and from hand-written encoders for every "
+        "bit depth/channel layout/shape are decoded with imread_from_bytes; optical write/read for lossless formats; every correction configuration "
+        "that supports saving is reloaded through read_correction and applied to probes (RNG re-seeded) with bit-identical output required.",
+        "Trusted: numpy/cv2/PIL encoders used to build inputs (hand-written encoders cross-validated with PIL/tifffile). JPEG/DICOM/VTU excluded by the statement.",
+        "DESIGN.md §3 C18",
+    ),
     "C04": (
         "model_checking",
         "exhaustive option lattice on the real solvers + deviation-bounded enumeration of failing inner linear solves (complete fault tree per run), independent reference divergence/cost",
